@@ -20,7 +20,7 @@ void ids_of(const ONode &n, std::vector<std::pair<std::string, std::string>> &ou
 // ---- helper run in a freshly exec'ed process: one session on a file that creates entities of every kind; prints "kind<TAB>id"
 int idgen_helper(int argc, char **argv) {
     if (argc < 3) return 2;
-    std::string path = argv[0]; std::string mode = argv[1]; int n = atoi(argv[2]); std::string tagname = argc > 3 ? argv[3] : "x";
+    std::string path = argv[0]; std::string mode = argv[1]; int n = atoi(argv[2]); std::string tagname = argc > 3 ? argv[3] : "x"; int focus = argc > 4 ? atoi(argv[4]) : -1;   // focus: every second creation is of this kind, so each kind in turn dominates a population
     try {
         File f = File::open(path, mode == "append" ? FileMode::ReadWrite : FileMode::Overwrite);
         if (mode != "append") printf("file\t%s\n", f.id().c_str());
@@ -29,7 +29,7 @@ int idgen_helper(int argc, char **argv) {
             Section s = f.createSection(pfx + "-sec", "t"); printf("section\t%s\n", s.id().c_str());
             for (int i = 0; i < count; i++) {
                 std::string k = pfx + "-" + std::to_string(i);
-                switch (i % 9) {
+                switch ((focus >= 0 && i % 2) ? focus : i % 9) {
                 case 0: printf("data_array\t%s\n", b.createDataArray(k, "t", DataType::Double, NDSize{2}).id().c_str()); break;
                 case 1: printf("tag\t%s\n", b.createTag(k, "t", {1.0}).id().c_str()); break;
                 case 2: printf("source\t%s\n", b.createSource(k, "t").id().c_str()); break;
@@ -78,27 +78,28 @@ void check_population(Ctx &c, const std::vector<std::pair<std::string, std::stri
 void multi_process(Ctx &c, int variant) {
     Rng &r = c.rng; static const int Ps[] = {2, 4, 8, 16}; int P = r.pick(Ps); int n = 30 + (int)r.u(30);
     long t0 = 1700000000 + (long)r.u(100000000);
+    std::string focus = str((int)r.u(10) - 1);
     std::string scen = variant == 0 ? "same-second-pinned" : variant == 1 ? "same-second-real-clock" : variant == 2 ? "staggered-seconds" : variant == 3 ? "sequential-sessions-one-file" : "threads-in-one-process";
-    c.fp(scen + str(P)); c.count("scenario:" + scen);
+    c.fp(scen + str(P) + "f" + focus); c.count("scenario:" + scen); c.count("focus-kind:" + focus);
     std::vector<std::pair<std::string, std::string>> ids;
     auto parse = [&](const std::string &out, const std::string &who) { size_t a = 0; while (a < out.size()) { size_t b = out.find('\n', a); if (b == std::string::npos) b = out.size(); std::string l = out.substr(a, b - a); size_t t = l.find('\t'); if (t != std::string::npos) ids.emplace_back(l.substr(t + 1), who + ":" + l.substr(0, t)); a = b + 1; } };
     if (variant <= 2) {
         int gate[2]; if (pipe(gate) != 0) return;
         c.op("spawn " + scen + " | P=" + str(P) + " n=" + str(n));
         std::vector<Proc> procs;
-        for (int i = 0; i < P; i++) procs.push_back(spawn({c.path("p" + str(i) + ".nix"), "create", str(n), "p" + str(i)}, variant == 0 ? t0 : variant == 2 ? t0 + i : 0, gate[0]));
+        for (int i = 0; i < P; i++) procs.push_back(spawn({c.path("p" + str(i) + ".nix"), "create", str(n), "p" + str(i), focus}, variant == 0 ? t0 : variant == 2 ? t0 + i : 0, gate[0]));
         close(gate[0]); { std::string go((size_t)P, 'g'); ssize_t w = write(gate[1], go.data(), go.size()); (void)w; } close(gate[1]);
         for (int i = 0; i < P; i++) { bool ok = collect(procs[(size_t)i]); c.check(ok, "C12/harness/helper-failed", "id generating process failed"); parse(procs[(size_t)i].out, "process" + str(i)); }
         c.count("processes", P);
     } else if (variant == 3) {
         // short-lived sessions on the SAME file, all inside one second
         c.op("sequential sessions on one file | sessions=" + str(P));
-        for (int i = 0; i < P; i++) { Proc pr = spawn({c.path("shared.nix"), i == 0 ? "create" : "append", str(n / 2 + 2), "s" + str(i)}, t0, -1); bool ok = collect(pr); c.check(ok, "C12/harness/helper-failed", "session process failed: " + pr.out.substr(0, 100)); parse(pr.out, "session" + str(i)); }
+        for (int i = 0; i < P; i++) { Proc pr = spawn({c.path("shared.nix"), i == 0 ? "create" : "append", str(n / 2 + 2), "s" + str(i), focus}, t0, -1); bool ok = collect(pr); c.check(ok, "C12/harness/helper-failed", "session process failed: " + pr.out.substr(0, 100)); parse(pr.out, "session" + str(i)); }
         // and the ids stored in the file itself
         File f = File::open(c.path("shared.nix"), FileMode::ReadOnly); Observer ob; ONode t = ob.file(f); f.close(); std::vector<std::pair<std::string, std::string>> infile; ids_of(t, infile); check_population(c, infile, scen + "/in-file");
         c.count("sessions", P);
     } else {
-        c.op("threads in one process"); Proc pr = spawn({c.path("thr.nix"), "threads", str(n), "t"}, 0, -1); bool ok = collect(pr); c.check(ok, "C12/harness/helper-failed", "thread helper failed"); parse(pr.out, "threads");
+        c.op("threads in one process"); Proc pr = spawn({c.path("thr.nix"), "threads", str(n), "t", focus}, 0, -1); bool ok = collect(pr); c.check(ok, "C12/harness/helper-failed", "thread helper failed"); parse(pr.out, "threads");
     }
     check_population(c, ids, scen);
 }
